@@ -120,7 +120,8 @@ class RawLinkLayer(LinkLayer):
                         and m[6:12] != self.mac_address
                     ):
                         self.receive_callback(m[14:])
-                except NotImplementedError as e:
+                except Exception as e:  # pylint: disable=broad-except
+                    # A malformed or unsupported frame must never stop the receive loop.
                     print("Error decoding packet: " + str(e))
             except OSError:
                 break
